@@ -176,6 +176,16 @@ R('r_panic', ['C04', 'C02'], ['ScopeGuard::drop', 'RawTableInner::rehash_in_plac
   'the k-th Hash/Eq/Clone/Drop/predicate/entry-closure/iterator callback panics (real unwinding): valid table, len == yielded == found, no double drop, leaks only from destructor panics, hasher panic while growing leaves contents unchanged')
 R('r_panic_nodrop', ['C04', 'C02'], ['RawTableInner::rehash_in_place'], 'hasher panic during reserve/insert/shrink for element types without drop glue: items == #FULL afterwards')
 R('r_unlawful', ['C05'], ['HashMap::*', 'HashSet::*'], 'random / constant / inconsistent Hash and Eq answers over operation sequences: wf after every step, termination, exactly-once drops, len == yielded == drained, get_many_mut never aliases')
+R('r_raw_rustc_entry', ['C14'], ['HashMap::raw_entry', 'HashMap::raw_entry_mut', 'RawEntryBuilderMut::*', 'RawOccupiedEntryMut::*', 'RawVacantEntryMut::*', 'HashMap::rustc_entry', 'RustcEntry::*', 'RawTable::insert_no_grow'],
+  'raw_entry / raw_entry_mut builders (from_key, from_key_hashed_nocheck, from_hash) and rustc_entry (reserve at creation, insert_no_grow) equal the association-list reference, full-load states included')
+R('r_layouts', ['C02'], ['Bucket::from_base_index', 'Bucket::as_ptr', 'Bucket::next_n', 'TableLayout::new', 'RawTableInner::new_uninitialized'],
+  'operation sequences + dropped/leaked drains for element layouts (), u8, u16, [u64;3], [u8;200], align 64: aligned control bytes and element references, len == yielded, valid after leak')
+R('r_split_tree', ['C19'], ['RawIterRange::split'], 'RawIterRange::split along any decision tree (depth <= 5): the leaves deliver exactly the full buckets, none twice')
+R('r_rayon', ['C19'], ['RawParIter', 'RawParDrain', 'RawIntoParIter', 'ParDrainProducer::split', 'ParDrainProducer::fold_with', 'ParDrainProducer::drop', 'par_extend', 'par_eq', 'parallel set operations'],
+  'real rayon pools of 1/2/3/8/64 threads: par_iter(_mut)/par_keys/par_values/into_par_iter/par_drain deliver each element once, par_drain leaves an empty usable map, short-circuited elements dropped exactly once (global ledger), par_extend/from_par_iter/par_eq/parallel set ops equal the sequential ones',
+  quick_iters=9000, thorough_iters=150000)
+R('r_serde', ['C20'], ['serde::Deserialize for HashMap', 'serde::Deserialize for HashSet', 'serde::Serialize for HashMap', 'serde::Serialize for HashSet', 'size_hint::cautious', 'deserialize_in_place'],
+  'deserialise with duplicates keeps the last value; lying size hints reserve a bounded capacity; an error at any position neither leaks nor double-drops; serialize -> deserialize round trip; deserialize_in_place')
 
 
 VERUS = {
